@@ -94,6 +94,27 @@ def _writeall_linear(ctx, func, cfgnode, call):
     if not deltas:
         return False, "the byte count returned by the write is discarded", None
     buf = unawait(call.args[0])
+    staged = None
+    if isinstance(buf, ast.Name) and buf.id not in func.params:
+        # the remainder is kept in a variable: `pending = data` before the loop, `pending = data[sent:]` after each count
+        P = buf.id
+        defs = list(df.reaching(cfgnode, P))
+        ins = [d for d in defs if d.node in inside]
+        outs = [d for d in defs if d.node not in inside]
+        if ins and outs and all(d.kind == "assign" and not d.path and d.value is not None for d in defs):
+            def whole_or_suffix(v):
+                v = unawait(v)
+                if isinstance(v, ast.Subscript) and isinstance(v.slice, ast.Slice) and v.slice.step is None and v.slice.lower is not None \
+                        and (v.slice.upper is None or key(v.slice.upper) == key(_len_of(v.value))):
+                    return v
+                if varkey(v) is not None:
+                    return ast.Subscript(value=v, slice=ast.Slice(lower=ast.Constant(value=0), upper=None, step=None), ctx=ast.Load())
+                return None
+            iv = [whole_or_suffix(d.value) for d in ins]
+            ov = [whole_or_suffix(d.value) for d in outs]
+            if all(x is not None for x in iv + ov) and len(set(key(x) for x in iv)) == 1 and all(isinstance(x.slice.lower, ast.Constant) and x.slice.lower.value == 0 and varkey(x.value) == varkey(iv[0].value) for x in ov):
+                staged = (P, [d.node for d in ins])
+                buf = iv[0]
     if not (isinstance(buf, ast.Subscript) and isinstance(buf.slice, ast.Slice) and buf.slice.step is None and buf.slice.lower is not None):
         return False, "the write does not resend the remainder `buffer[start:]`", None
     B = varkey(buf.value)
@@ -124,6 +145,19 @@ def _writeall_linear(ctx, func, cfgnode, call):
         r = g.reach([cfgnode], avoid=[m], exc=False) if m is not cfgnode else set()
         if head in r or any(x in r for x in exits):
             return False, "the returned count is not added to the counter on every path", None
+    if staged is not None:
+        P, pdefs = staged
+        dnodes = [m for (_sg, m) in deltas.values()]
+
+        def fresh_at(x):
+            # after every change of a counter the variable is recomputed before x is reached
+            return not any(x in g.reach([m], avoid=pdefs, exc=False) for m in dnodes)
+        if not fresh_at(cfgnode):
+            return False, "`%s` is written again without having been recomputed from the new count" % P, None
+        for n in inside:
+            for d in df.node_defs.get(n, []):
+                if d.var == P and n not in pdefs:
+                    return False, "`%s` is also modified at `%s`" % (P, norm_stmt(n.ast)), None
     # entry: S == 0
     init = ({}, S[1])
     for v, k in S[0].items():
@@ -158,9 +192,13 @@ def _writeall_linear(ctx, func, cfgnode, call):
             la = lin_ast(xs[0], B)
             return la is not None and la == rem
         return False
+
+    def staged_empty(n, fa):
+        # `not pending` where pending is the current remainder
+        return staged is not None and fa[0] == ("truthy", key(ast.Name(id=staged[0], ctx=ast.Load()))) and fa[1] is False and fresh_at(n)
     for (n, d, l) in loop_exit_edges(g, head):
         have = set(df.facts(n)) | df.edge_facts(n, l)
-        if not any(done(fa) for fa in have):
+        if not any(done(fa) or staged_empty(n, fa) for fa in have):
             return False, "the loop can be left at `%s` while bytes remain" % (norm_stmt(n.ast) if n.ast is not None else n.kind), None
     return True, "write-all loop (linear invariant): `%s[start:]` with start advancing by the count written, until nothing remains" % B, {"buffer": B, "head": head, "offset": None}
 
